@@ -1,7 +1,8 @@
 /-
 Driver/C01.lean — line-protocol driver for C01/C11 chains.
 in : {"case": n, "table": Table, "steps": [Step]}
-out: {"case": n, "model": table, "spec": table, "scope": [violated hypothesis names], "last": "<op>"}
+out: {"case": n, "model": table, "spec": table, "scope": [violated hypothesis names], "last": "<op>",
+      "shape": [per frozen CTE, then the open block: select names, WHERE present, DISTINCT, ORDER BY keys, LIMIT | unpivot]}
 Pure function of its input lines.
 -/
 import SqlframeModel.Codec.C01
@@ -12,6 +13,16 @@ structure Case where
   table : Table
   steps : List Step
   deriving FromJson
+
+/-- what can be read back from the text of one SELECT block -/
+def blockShape (b : Block) : Json :=
+  Json.mkObj [("kind", "block"), ("sel", toJson (b.sel.map (·.1))), ("where", toJson (!b.wher.isEmpty)),
+    ("distinct", toJson b.distinct), ("order", toJson (b.order.map (fun k => (k.name, k.desc)))),
+    ("limit", match b.limit with | some n => toJson n | none => Json.null)]
+
+def cteShape : CteBody → Json
+  | .block b => blockShape b
+  | .unpivot _ vals _ _ dis => Json.mkObj [("kind", "unpivot"), ("branches", toJson vals.length), ("distinct", toJson dis)]
 
 def handle (line : String) : String :=
   match Json.parse line >>= fromJson? (α := Case) with
@@ -25,6 +36,7 @@ def handle (line : String) : String :=
       ("model", m.toPlain),
       ("spec", s.toPlain),
       ("scope", toJson (violated c.steps)),
+      ("shape", Json.arr ((d.hist.map cteShape) ++ [blockShape d.blk]).toArray),
       ("last", toJson (reprStr d.last))])
 
 partial def loop (h : IO.FS.Stream) (out : IO.FS.Stream) : IO Unit := do
